@@ -14,6 +14,7 @@ func init() {
 		ruleReflectSign(c, r, c.funcsInScope(func(s string) bool { return s == "ygot/render.go" || s == "ytypes/util_types.go" }, libPkgs), 4)
 		ruleBase64Std(c, r)
 		ruleUnionNameClash(c, r)
+		ruleSortTotal(c, r)
 	})
 	register("C02", func(c *Ctx, r *Report) {
 		r.Decides("gNMI scalar wrapper produced per YANG kind is accepted by the decoder; every key kind has a string form and both parsers; every leaf-list element kind is encodable.",
